@@ -189,7 +189,7 @@ def minimise(ver, ast, full, fail_key, outcome_fn=None):
                 o = fn(ch)
             except ValueError:
                 continue
-            if o.fail_key() == fail_key:
+            if o.fail_key() == fail_key or o.fail_key().split(':')[0] == fail_key:
                 cur = ch
                 break
         else:
@@ -259,9 +259,12 @@ def _grouping_core(ver, ast):
         if o.kind == 'ok':
             oks += 1
             continue
-        fk = o.fail_key()
-        m = minimise(ver, ast, full, fk)
+        # minimise on the kind of failure: an enclosing constructor may re-label the error code of the same rejection
+        m = minimise(ver, ast, full, o.kind)
         mo = ast_outcome(ver, m, full)
+        if mo.kind == o.kind:
+            o = Outcome(mo.kind, o.string, code=mo.code, exp=o.exp, obs=o.obs, diff=o.diff, exc=mo.exc)
+        fk = mo.fail_key() if mo.kind == o.kind else o.fail_key()
         cls = culprit(ver, m, full, fk)
         mode = 'full' if full else 'min'
         if o.kind == 'rejected':
